@@ -35,6 +35,31 @@ def _parents_c14(n):
         n = getattr(n, "_parent", None)
 
 
+def _pair_set_membership(sf, test):
+    """`<pair> in S` with S = set(itertools.combinations(C, 2)): combinations lists the members of C in the order of C, so a cannot-link pair is found
+    in both orientations only if it is normalised the same way as C is ordered (both sorted), or if both orientations are looked up.
+    True / explanation string (a violation) / None (not this form)"""
+    t = test
+    if not (isinstance(t, ast.Compare) and len(t.ops) == 1 and isinstance(t.ops[0], ast.In) and isinstance(t.comparators[0], ast.Name)):
+        return None
+    sname = t.comparators[0].id
+    defs = [s_ for s_ in ast.walk(sf) if isinstance(s_, ast.Assign) and len(s_.targets) == 1 and isinstance(s_.targets[0], ast.Name) and s_.targets[0].id == sname]
+    if len(defs) != 1:
+        return None
+    v = defs[0].value
+    inner = v.args[0] if isinstance(v, ast.Call) and call_name(v) in ("set", "frozenset") and len(v.args) == 1 else None
+    if not (isinstance(inner, ast.Call) and (call_name(inner) or "").split(".")[-1] == "combinations" and len(inner.args) + len(inner.keywords) == 2 and inner.args):
+        return None
+    comp_sorted = isinstance(inner.args[0], ast.Call) and call_name(inner.args[0]) == "sorted"
+    key = t.left
+    key_sorted = isinstance(key, ast.Call) and call_name(key) == "tuple" and key.args and isinstance(key.args[0], ast.Call) and call_name(key.args[0]) == "sorted"
+    if comp_sorted and key_sorted:
+        return True
+    return (f"the cannot-link pair is looked up as `{norm_src(key)}` in the set of itertools.combinations({norm_src(inner.args[0])}, 2): combinations lists each pair in the "
+            f"order of its first argument, which is {'sorted' if comp_sorted else 'NOT sorted (search / set order)'}, while the key is "
+            f"{'sorted' if key_sorted else 'in the order the user wrote it'}: a contradictory pair whose members appear in the other order is not found")
+
+
 def _both_orientations(test):
     """(x == p and y == q) or (x == q and y == p) for two distinct pairs of operands, whatever their names; also inside any(... for ... in ...).
     True / False (a recognisable test of another shape, e.g. one orientation only) / None (not recognised)"""
@@ -299,7 +324,11 @@ def run(pm, ctx):
         conds = [norm_src(p.test) for p in _parents(rs[0]) if isinstance(p, ast.If)]
         tests = [p.test for p in _parents(rs[0]) if isinstance(p, ast.If)]
         verdict = _both_orientations(tests[0]) if tests else None
-        if verdict is True:
+        if verdict is None and tests:
+            verdict = _pair_set_membership(sf, tests[0])
+        if isinstance(verdict, str):
+            ctx.violation("C14-c", u.relpath, "_check_structural_constraint", conds[0] if conds else "raise", verdict, line=rs[0].lineno, site="_check_structural_constraint: raise")
+        elif verdict is True:
             ctx.ok("C14-c", "_check_structural_constraint: raises when a cannot-link pair (either orientation) lies in one component")
         elif verdict is None:
             ctx.unrecognised("C14-c", "_check_structural_constraint: raise", f"contradiction test `{conds[0][:80] if conds else ''}` is not a disjunction of pairwise equalities")
